@@ -8,154 +8,12 @@ where
     V: ValT + Default,
     KeyRef: hb::Equivalent<K>,
 {
-fn check_hint<I: ExactSizeIterator>(it: &I, r: usize, what: &str) -> Result<(), Bad> {
-    let h = it.size_hint();
-    if h != (r, Some(r)) || it.len() != r {
-        bad!("C09", "size_hint", "{what}: size_hint {:?} len {} with {r} elements remaining", h, it.len());
-    }
-    Ok(())
-}
-
-/// Drive an exact-size iterator: `prefix` calls of next(), then the continuation.
-/// Returns the projected items and whether all yielded items are in the list.
-fn drive_iter<I, F>(
-    mut it: I,
-    total: usize,
-    prefix: usize,
-    cont: u64,
-    cloner: Option<&dyn Fn(&I) -> I>,
-    what: &str,
-    mut proj: F,
-) -> Result<(Vec<(u64, u64)>, bool), Bad>
-where
-    I: ExactSizeIterator,
-    F: FnMut(I::Item) -> (u64, u64),
-{
-    let mut out = Vec::new();
-    let mut r = total;
-    Self::check_hint(&it, r, what)?;
-    for _ in 0..prefix.min(total) {
-        match it.next() {
-            Some(x) => {
-                out.push(proj(x));
-                r -= 1;
-                Self::check_hint(&it, r, what)?;
-            }
-            None => bad!("C09", "yields-fewer", "{what}: next() returned None with {r} elements remaining"),
-        }
-    }
-    let mut complete = true;
-    match cont {
-        1 => {
-            let rest = it.fold(Vec::new(), |mut acc, x| {
-                acc.push(proj(x));
-                acc
-            });
-            if rest.len() != r {
-                bad!("C09", "fold-count", "{what}: fold visited {} elements, {r} remained", rest.len());
-            }
-            out.extend(rest);
-        }
-        2 => {
-            let mut n = 0;
-            it.for_each(|x| {
-                n += 1;
-                out.push(proj(x));
-            });
-            if n != r {
-                bad!("C09", "for_each-count", "{what}: for_each visited {n} elements, {r} remained");
-            }
-        }
-        4 => {
-            let n = it.count();
-            if n != r {
-                bad!("C09", "count", "{what}: count() = {n}, {r} remained");
-            }
-            complete = r == 0;
-        }
-        5 => {
-            // dropped early
-            complete = r == 0;
-            drop(it);
-        }
-        _ => {
-            let mut second: Option<I> = None;
-            if cont == 3 {
-                if let Some(c) = cloner {
-                    second = Some(c(&it));
-                }
-            }
-            let mut first_rest = Vec::new();
-            while let Some(x) = it.next() {
-                if r == 0 {
-                    bad!("C09", "yields-more", "{what}: next() yields more elements than len() announced");
-                }
-                first_rest.push(proj(x));
-                r -= 1;
-                Self::check_hint(&it, r, what)?;
-            }
-            if r != 0 {
-                bad!("C09", "yields-fewer", "{what}: exhausted with {r} elements still announced");
-            }
-            for _ in 0..3 {
-                if it.next().is_some() {
-                    bad!("C09", "not-fused", "{what}: next() returned Some after None");
-                }
-            }
-            if let Some(mut it2) = second {
-                let mut r2 = first_rest.len();
-                let mut second_rest = Vec::new();
-                Self::check_hint(&it2, r2, what)?;
-                while let Some(x) = it2.next() {
-                    if r2 == 0 {
-                        bad!("C09", "clone-yields-more", "{what}: cloned iterator yields more than the original");
-                    }
-                    second_rest.push(proj(x));
-                    r2 -= 1;
-                }
-                let mut a = first_rest.clone();
-                let mut b = second_rest;
-                a.sort_unstable();
-                b.sort_unstable();
-                if a != b {
-                    bad!("C09", "clone-differs", "{what}: cloned iterator yielded {:?}, original {:?}", b, a);
-                }
-            }
-            out.extend(first_rest);
-        }
-    }
-    Ok((out, complete))
-}
-
-fn compare_yield(mut got: Vec<(u64, u64)>, mut want: Vec<(u64, u64)>, complete: bool, what: &str) -> Result<(), Bad> {
-    got.sort_unstable();
-    want.sort_unstable();
-    if complete {
-        if got != want {
-            bad!("C09", "yield-multiset", "{what}: yielded {:?}, contents {:?}", &got[..got.len().min(12)], &want[..want.len().min(12)]);
-        }
-    } else {
-        // every yielded item is a distinct stored item
-        let mut j = 0;
-        for g in &got {
-            while j < want.len() && want[j] < *g {
-                j += 1;
-            }
-            if j >= want.len() || want[j] != *g {
-                bad!("C09", "yield-not-stored", "{what}: yielded {:?} which is not (or no longer) available in contents", g);
-            }
-            j += 1;
-        }
-    }
-    Ok(())
-}
-
 fn iter_op(&mut self, kind: u64, frac: u64, cont: u64) -> Result<(), Bad> {
     let s = &mut self.slots[self.cur];
     let total = s.model.len();
     let prefix = frac_to(frac, total);
     if prefix > 0 && prefix < total && (cont == 1 || cont == 3) {
-        self.labels |= dump::L_PROP_C;
+        self.labels |= dump::L_ITER_CUT;
     }
     let pairs: Vec<(u64, u64)> = s.model.iter().map(|e| (e.id as u64, e.val)).collect();
     let keys: Vec<(u64, u64)> = s.model.iter().map(|e| (e.id as u64, e.gen as u64)).collect();
@@ -163,12 +21,12 @@ fn iter_op(&mut self, kind: u64, frac: u64, cont: u64) -> Result<(), Bad> {
     let mutate = cont != 4;
     match kind % 5 {
         0 => {
-            let (got, c) = Self::drive_iter(s.map.iter(), total, prefix, cont, Some(&|i: &hb::hash_map::Iter<'_, K, V>| i.clone()), "iter", |(k, v)| {
+            let (got, c) = drive_iter(s.map.iter(), total, prefix, cont, Some(&|i: &hb::hash_map::Iter<'_, K, V>| i.clone()), "iter", |(k, v)| {
                 k.check("iter key");
                 v.check("iter value");
                 (k.id() as u64, v.get())
             })?;
-            Self::compare_yield(got, pairs, c, "iter")?;
+            compare_yield(got, pairs, c, "iter")?;
             let d = hb::hash_map::Iter::<K, V>::default();
             if d.len() != 0 || d.clone().next().is_some() {
                 bad!("C09", "default-iter-not-empty", "Iter::default() is not empty");
@@ -176,7 +34,7 @@ fn iter_op(&mut self, kind: u64, frac: u64, cont: u64) -> Result<(), Bad> {
         }
         1 => {
             let mut touched = Vec::new();
-            let (got, c) = Self::drive_iter(s.map.iter_mut(), total, prefix, cont, None, "iter_mut", |(k, v)| {
+            let (got, c) = drive_iter(s.map.iter_mut(), total, prefix, cont, None, "iter_mut", |(k, v)| {
                 k.check("iter_mut key");
                 v.check("iter_mut value");
                 let old = v.get();
@@ -186,7 +44,7 @@ fn iter_op(&mut self, kind: u64, frac: u64, cont: u64) -> Result<(), Bad> {
                 }
                 (k.id() as u64, old)
             })?;
-            Self::compare_yield(got, pairs, c, "iter_mut")?;
+            compare_yield(got, pairs, c, "iter_mut")?;
             for id in touched {
                 if let Some(i) = Self::mpos(&s.model, id) {
                     s.model[i].val = s.model[i].val.wrapping_add(3);
@@ -198,22 +56,22 @@ fn iter_op(&mut self, kind: u64, frac: u64, cont: u64) -> Result<(), Bad> {
             }
         }
         2 => {
-            let (got, c) = Self::drive_iter(s.map.keys(), total, prefix, cont, Some(&|i: &hb::hash_map::Keys<'_, K, V>| i.clone()), "keys", |k| {
+            let (got, c) = drive_iter(s.map.keys(), total, prefix, cont, Some(&|i: &hb::hash_map::Keys<'_, K, V>| i.clone()), "keys", |k| {
                 k.check("keys item");
                 (k.id() as u64, k.gen() as u64)
             })?;
-            Self::compare_yield(got, keys, c, "keys")?;
+            compare_yield(got, keys, c, "keys")?;
             let d = hb::hash_map::Keys::<K, V>::default();
             if d.len() != 0 || d.clone().next().is_some() {
                 bad!("C09", "default-iter-not-empty", "Keys::default() is not empty");
             }
         }
         3 => {
-            let (got, c) = Self::drive_iter(s.map.values(), total, prefix, cont, Some(&|i: &hb::hash_map::Values<'_, K, V>| i.clone()), "values", |v| {
+            let (got, c) = drive_iter(s.map.values(), total, prefix, cont, Some(&|i: &hb::hash_map::Values<'_, K, V>| i.clone()), "values", |v| {
                 v.check("values item");
                 (v.get(), 0)
             })?;
-            Self::compare_yield(got, vals, c, "values")?;
+            compare_yield(got, vals, c, "values")?;
             let d = hb::hash_map::Values::<K, V>::default();
             if d.len() != 0 || d.clone().next().is_some() {
                 bad!("C09", "default-iter-not-empty", "Values::default() is not empty");
@@ -222,7 +80,7 @@ fn iter_op(&mut self, kind: u64, frac: u64, cont: u64) -> Result<(), Bad> {
         _ => {
             // values_mut: mutate only when every element is visited (ids are not visible)
             let all = cont != 4 && cont != 5;
-            let (got, c) = Self::drive_iter(s.map.values_mut(), total, prefix, cont, None, "values_mut", |v| {
+            let (got, c) = drive_iter(s.map.values_mut(), total, prefix, cont, None, "values_mut", |v| {
                 v.check("values_mut item");
                 let old = v.get();
                 if all {
@@ -230,7 +88,7 @@ fn iter_op(&mut self, kind: u64, frac: u64, cont: u64) -> Result<(), Bad> {
                 }
                 (old, 0)
             })?;
-            Self::compare_yield(got, vals, c, "values_mut")?;
+            compare_yield(got, vals, c, "values_mut")?;
             if all {
                 for e in s.model.iter_mut() {
                     e.val = e.val.wrapping_add(5);
@@ -251,19 +109,19 @@ fn drain_op(&mut self, frac: u64, cont: u64) -> Result<(), Bad> {
     let prefix = frac_to(frac, total);
     let cont = if cont % 2 == 0 { 5 } else { 0 };
     if prefix > 0 && prefix < total && cont == 5 {
-        self.labels |= dump::L_PROP_D;
+        self.labels |= dump::L_DRAIN_CUT;
     }
     let size_before = s.map.allocation_size();
     let cap_before = s.map.capacity();
     let pairs: Vec<(u64, u64)> = s.model.iter().map(|e| (e.id as u64, e.val)).collect();
     // the model is emptied first: whatever happens the drained map ends up empty
     s.model.clear();
-    let (got, c) = Self::drive_iter(s.map.drain(), total, prefix, cont, None, "drain", |(k, v)| {
+    let (got, c) = drive_iter(s.map.drain(), total, prefix, cont, None, "drain", |(k, v)| {
         k.check("drain key");
         v.check("drain value");
         (k.id() as u64, v.get())
     })?;
-    Self::compare_yield(got, pairs, c, "drain").map_err(|b| ("C10", b.1, b.2))?;
+    compare_yield(got, pairs, c, "drain").map_err(|b| ("C10", b.1, b.2))?;
     if !s.map.is_empty() {
         bad!("C10", "drain-leaves-elements", "after drain the map has len {}", s.map.len());
     }
@@ -282,7 +140,7 @@ fn extract_if_op(&mut self, salt: u64, pct: u64, frac: u64, mutate: bool) -> Res
     let selected = s.model.iter().filter(|e| !keep(e.id, salt, pct)).count();
     let take = frac_to(frac, selected + 1);
     if selected > 0 && selected < total && take > 0 && take < selected {
-        self.labels |= dump::L_PROP_E;
+        self.labels |= dump::L_EXTRACT_CUT;
     }
     let mut visited: Vec<u32> = Vec::new();
     let mut yielded: Vec<(u32, u64)> = Vec::new();
@@ -347,7 +205,7 @@ fn into_iter_op(&mut self, kind: u64, frac: u64) -> Result<(), Bad> {
     let prefix = frac_to(frac, total);
     let cont = if frac & 1 == 0 { 5 } else { (frac >> 1) % 5 };
     if prefix > 0 && prefix < total && cont == 5 {
-        self.labels |= dump::L_PROP_F;
+        self.labels |= dump::L_INTOITER_CUT;
     }
     let pairs: Vec<(u64, u64)> = s.model.iter().map(|e| (e.id as u64, e.val)).collect();
     let keys: Vec<(u64, u64)> = s.model.iter().map(|e| (e.id as u64, e.gen as u64)).collect();
@@ -356,34 +214,34 @@ fn into_iter_op(&mut self, kind: u64, frac: u64) -> Result<(), Bad> {
     let old = std::mem::replace(&mut s.map, Map::with_hasher_in(PlanBuildHasher::new(s.plan), CheckAlloc));
     match kind % 3 {
         0 => {
-            let (got, c) = Self::drive_iter(old.into_iter(), total, prefix, cont, None, "into_iter", |(k, v)| {
+            let (got, c) = drive_iter(old.into_iter(), total, prefix, cont, None, "into_iter", |(k, v)| {
                 k.check("into_iter key");
                 v.check("into_iter value");
                 (k.id() as u64, v.get())
             })?;
-            Self::compare_yield(got, pairs, c, "into_iter")?;
+            compare_yield(got, pairs, c, "into_iter")?;
             let mut d = hb::hash_map::IntoIter::<K, V, CheckAlloc>::default();
             if d.len() != 0 || d.next().is_some() {
                 bad!("C09", "default-iter-not-empty", "IntoIter::default() is not empty");
             }
         }
         1 => {
-            let (got, c) = Self::drive_iter(old.into_keys(), total, prefix, cont, None, "into_keys", |k| {
+            let (got, c) = drive_iter(old.into_keys(), total, prefix, cont, None, "into_keys", |k| {
                 k.check("into_keys item");
                 (k.id() as u64, k.gen() as u64)
             })?;
-            Self::compare_yield(got, keys, c, "into_keys")?;
+            compare_yield(got, keys, c, "into_keys")?;
             let mut d = hb::hash_map::IntoKeys::<K, V, CheckAlloc>::default();
             if d.len() != 0 || d.next().is_some() {
                 bad!("C09", "default-iter-not-empty", "IntoKeys::default() is not empty");
             }
         }
         _ => {
-            let (got, c) = Self::drive_iter(old.into_values(), total, prefix, cont, None, "into_values", |v| {
+            let (got, c) = drive_iter(old.into_values(), total, prefix, cont, None, "into_values", |v| {
                 v.check("into_values item");
                 (v.get(), 0)
             })?;
-            Self::compare_yield(got, vals, c, "into_values")?;
+            compare_yield(got, vals, c, "into_values")?;
             let mut d = hb::hash_map::IntoValues::<K, V, CheckAlloc>::default();
             if d.len() != 0 || d.next().is_some() {
                 bad!("C09", "default-iter-not-empty", "IntoValues::default() is not empty");
@@ -415,7 +273,7 @@ fn clone_op(&mut self, from_other: bool) -> Result<(), Bad> {
     let sd = Self::dump_of(&src.map);
     if from_other {
         if dd.bucket_mask != sd.bucket_mask || dd.n_deleted() > 0 {
-            self.labels |= dump::L_PROP_A;
+            self.labels |= dump::L_CLONE_FROM_DIFF;
         }
         dst.map.clone_from(&src.map);
     } else {
@@ -447,7 +305,7 @@ fn eq_op(&mut self) -> Result<(), Bad> {
     let b = &self.slots[1];
     let want = Self::models_equal(&a.model, &b.model);
     if want && a.plan != b.plan && !a.model.is_empty() {
-        self.labels |= dump::L_PROP_B;
+        self.labels |= dump::L_EQ_DIFF_HISTORY;
     }
     let _q = Quiet::new();
     let ab = a.map == b.map;
@@ -477,7 +335,7 @@ fn get_many_op(&mut self, a: &[u64; crate::case::MAX_ARGS]) -> Result<(), Bad> {
     }
     let n_present = present.iter().filter(|p| p.is_some()).count();
     if must_panic || (n >= 2 && n_present >= 2) {
-        self.labels |= dump::L_PROP_A;
+        self.labels |= dump::L_MANY_MUT;
     }
     let keys: Vec<K> = ids.iter().map(|id| K::new(*id, 0)).collect();
     let sentinel = |i: usize| 0xABCD_0000u64 + i as u64 + (a[1] << 8);
@@ -612,7 +470,7 @@ fn raw_entry_op(&mut self, k: u32, how: u64, act: u64, v: u64) -> Result<(), Bad
     let s = &mut self.slots[self.cur];
     let pre = Self::dump_of(&s.map);
     if pre.growth_left == 0 && !pre.is_singleton {
-        self.labels |= dump::L_PROP_A;
+        self.labels |= dump::L_ENTRY_AT_FULL;
     }
     let plan = s.plan;
     let h = plan.hash(k as u64);
@@ -815,7 +673,7 @@ fn rustc_entry_op(&mut self, k: u32, act: u64, v: u64) -> Result<(), Bad> {
     let s = &mut self.slots[self.cur];
     let pre = Self::dump_of(&s.map);
     if pre.growth_left == 0 && !pre.is_singleton {
-        self.labels |= dump::L_PROP_A;
+        self.labels |= dump::L_ENTRY_AT_FULL;
     }
     let present = Self::mpos(&s.model, k);
     let e = s.map.rustc_entry(K::new(k, g));
@@ -1033,17 +891,17 @@ pub fn faulted_step(&mut self, step: usize, op: &Op) -> Result<(), Violation> {
     }
     // ---- the injected panic unwound out of the operation
     self.out.count("faults_fired", 1);
-    self.labels |= dump::L_PROP_C;
+    self.labels |= dump::L_FAULT_UNWOUND;
     let st = alloc::stats();
     let grew = st.n_alloc > stats_before.n_alloc;
     if grew {
-        self.labels |= dump::L_PROP_D;
+        self.labels |= dump::L_FAULT_GROWTH;
     }
     if class == Class::Hash && !grew && pre_dump.n_deleted() > 0 && pre_dump.growth_left == 0 {
-        self.labels |= dump::L_PROP_E;
+        self.labels |= dump::L_FAULT_REHASH;
     }
     if class != Class::Hash {
-        self.labels |= dump::L_PROP_F;
+        self.labels |= dump::L_FAULT_OTHER;
     }
     if class.is_drop() {
         self.leak_ok = true;
